@@ -8,6 +8,8 @@ import (
 	"go/token"
 	"go/types"
 	"strings"
+
+	"golang.org/x/tools/go/ssa"
 )
 
 func init() {
@@ -446,6 +448,79 @@ func runC17(c *Ctx, r *Report) {
 		r.Hold("R-C17.4", r.Key("R-C17.4", nil, "no-block-removal", ""), token.NoPos, true, "no call of a block-removing API in first-party code")
 	}
 	r.Check(okPub, "R-C17.3", r.Key("R-C17.3", tm, "manifest", ""), tm.Body.Pos(), "the manifest written is exactly ToJSONLog() of the log being published", "toMultihash does not write ToJSONLog() of its own log")
+
+	// ---- R-C17.5: a manifest identifier handed out was produced by this very call
+	r.Doc("R-C17.5", "every manifest identifier returned by ToMultihash comes from a write performed by that call (no remembered identifier: a cached one can be older than an append that already returned)")
+	nm := 0
+	for _, t := range []struct{ recv, name string }{{"IPFSLog", "ToMultihash"}, {"", "toMultihash"}} {
+		fn := p.FuncI("", t.recv, t.name)
+		sf := p.SSAFunc(fn)
+		var fromWrite func(v ssa.Value, depth int) (bool, string)
+		fromWrite = func(v ssa.Value, depth int) (bool, string) {
+			if depth > 8 {
+				return false, "a value the rule cannot trace"
+			}
+			switch x := v.(type) {
+			case *ssa.Extract:
+				return fromWrite(x.Tuple, depth+1)
+			case *ssa.Call:
+				if x.Call.IsInvoke() && x.Call.Method.Name() == "Write" {
+					return true, ""
+				}
+				if cal := calleeOf(x); cal != nil && (cal.Name() == "toMultihash" || cal.Name() == "ToMultihash") {
+					return true, ""
+				}
+				return false, "the result of another call"
+			case *ssa.Phi:
+				for _, e := range x.Edges {
+					if ok, why := fromWrite(e, depth+1); !ok {
+						return false, why
+					}
+				}
+				return true, ""
+			case *ssa.UnOp:
+				if x.Op == token.MUL {
+					if f, _ := fieldOf(x.X); f != nil {
+						return false, "the remembered field " + f.Name()
+					}
+					if a, ok := x.X.(*ssa.Alloc); ok {
+						for _, st := range cellStores(a) {
+							if ok, why := fromWrite(st.Val, depth+1); !ok {
+								return false, why
+							}
+						}
+						return true, ""
+					}
+				}
+			}
+			return false, "a value that is not the result of the write"
+		}
+		allInstrs(sf, false, func(ins ssa.Instruction) {
+			ret, ok := ins.(*ssa.Return)
+			if !ok || len(ret.Results) != 2 {
+				return
+			}
+			if cst, ok := ret.Results[1].(*ssa.Const); !ok || !cst.IsNil() {
+				// error returns, and tail calls returning the callee's pair
+				if ex, ok := ret.Results[1].(*ssa.Extract); !ok || ex.Tuple != tupleOf(ret.Results[0]) {
+					return
+				}
+			}
+			nm++
+			okw, why := fromWrite(ret.Results[0], 0)
+			r.Check(okw, "R-C17.5", r.Key("R-C17.5", fn, "identifier-from-write", ""), ret.Pos(),
+				"the identifier returned is the result of the manifest write of this call",
+				"the manifest identifier returned is "+why+", not the result of a write performed by this call: a publication that overlaps an append can leave an older manifest remembered, and every later publication hands out a manifest that lacks an append which had already returned")
+		})
+	}
+	r.Floor("R-C17.5", "success returns of the manifest publishers", nm, 2)
+}
+
+func tupleOf(v ssa.Value) ssa.Value {
+	if ex, ok := v.(*ssa.Extract); ok {
+		return ex.Tuple
+	}
+	return nil
 }
 
 func dagKindOfAssign(p *Prog, fn *Fn, as *ast.AssignStmt) string {
